@@ -319,6 +319,26 @@ func c12Run(c *core.Ctx, idx int) {
 				okAll = false
 				return
 			}
+			// a pointer-held alias whose pointee is exchanged after the Condition has taken (and rendered) it: the Condition
+			// shows what the pointer designates NOW, as it does for a native *Stack
+			if nv.IsInit() {
+				other := stackage.Or().Push("exchanged", "content")
+				va, vn := AStack(nv), nv
+				pa, pn := &va, &vn
+				ca, cn := stackage.Cond("k", stackage.Eq, pa), stackage.Cond("k", stackage.Eq, pn)
+				_, _ = ca.String(), cn.String()
+				ca.Len()
+				cn.Len()
+				va, vn = AStack(other), other
+				ua, _ := ca.Unmarshal()
+				un, _ := cn.Unmarshal()
+				if ca.String() != cn.String() || ca.Len() != cn.Len() || ca.IsNesting() != cn.IsNesting() || unmarshalEq(un, ua, "u") != "" ||
+					stackage.And().Push(ca).String() != stackage.And().Push(cn).String() {
+					fail("pointer-form:stale", "after the pointee of a *alias expression was exchanged the Condition shows %q (Len %d), a Condition holding a native *Stack treated the same way shows %q (Len %d)", ca.String(), ca.Len(), cn.String(), cn.Len())
+					okAll = false
+					return
+				}
+			}
 			cd := stackage.Cond("k", stackage.Eq, "keep").SetNoNesting(true).SetExpression(v)
 			if cd.Expression() != "keep" {
 				fail("no-nesting", "a no-nesting Condition accepted alias form %d as expression", n.Alias)
@@ -364,9 +384,17 @@ func c12Run(c *core.Ctx, idx int) {
 				return
 			}
 		}
-		// 8. Defrag gives the same result on both
-		N.Defrag()
-		A.Defrag()
+		// 8. Defrag gives the same result on both - with the default scan limit, or (on a third of the pairs) with an
+		// explicit one that the nil runs of nested stacks straddle
+		switch idx % 3 {
+		case 1:
+			lim := []int{1, 2, 3, 100}[r.Intn(4)]
+			N.Defrag(lim)
+			A.Defrag(lim)
+		default:
+			N.Defrag()
+			A.Defrag()
+		}
 		un2, _ := N.Unmarshal()
 		ua2, _ := A.Unmarshal()
 		if d := unmarshalEq(un2, ua2, "u"); d != "" {
